@@ -14,6 +14,7 @@ From PV Require Import Extract.RunC11.
 From PV Require Import Extract.RunC16.
 From PV Require Import Extract.RunC14.
 From PV Require Import Extract.RunC07.
+From PV Require Import Extract.RunTAB.
 Import ListNotations.
 Local Open Scope N_scope.
 
@@ -162,5 +163,6 @@ Definition run (cmd : N) (arg : sx) : sx :=
   | 141 => run_c14_1 arg
   | 142 => run_c14_2 arg
   | 143 => run_c14_3 arg
+  | 220 | 221 | 222 | 223 | 224 => run_tab cmd arg
   | _ => L [A 999999]
   end.
